@@ -313,7 +313,8 @@ def site(mi: ModuleInfo, node: ast.AST, func: str = "") -> str:
 # canonicalises the string first, so that rules are insensitive to behaviour-preserving spellings
 # (x.size() / x.shape, torch.round(x) / x.round(), keyword / positional arguments of package functions, 1 << n / 2 ** n ...).
 # ----------------------------------------------------------------------------------------------
-_METHOD_FORM = {"round", "clamp", "clip", "abs", "amax", "amin", "squeeze", "reshape", "permute", "t", "transpose", "flatten", "neg", "contiguous", "unsqueeze"}
+_METHOD_FORM = {"round", "clamp", "clip", "abs", "amax", "amin", "squeeze", "reshape", "permute", "t", "transpose", "flatten", "neg", "negative", "contiguous", "unsqueeze",
+                "div", "true_divide", "mul", "multiply", "sub", "subtract", "add", "clamp_min", "clamp_max", "floor", "ceil", "trunc", "nan_to_num", "isnan"}
 _SIGNATURES: Dict[str, ast.FunctionDef] = {}  # unique package function / constructor names -> def (filled by set_active_repo)
 
 
@@ -351,6 +352,24 @@ class _Canon(ast.NodeTransformer):
             if isinstance(base, ast.Name) and base.id == "torch" and f.attr == "matmul" and len(node.args) == 2 and not node.keywords:
                 return ast.BinOp(left=node.args[0], op=ast.MatMult(), right=node.args[1])
             f = node.func
+            # arithmetic spelled as functions / methods -> operators (only the plain two-operand forms: no alpha / rounding_mode / out)
+            arith = {"div": ast.Div, "true_divide": ast.Div, "mul": ast.Mult, "multiply": ast.Mult, "sub": ast.Sub, "subtract": ast.Sub, "add": ast.Add}
+            if f.attr in arith and not node.keywords and not any(isinstance(a, ast.Starred) for a in node.args):
+                if isinstance(f.value, ast.Name) and f.value.id == "torch" and len(node.args) == 2:
+                    return ast.BinOp(left=node.args[0], op=arith[f.attr](), right=node.args[1])
+                if not (isinstance(f.value, ast.Name) and f.value.id in ("torch", "operator", "np", "math")) and len(node.args) == 1:
+                    return ast.BinOp(left=f.value, op=arith[f.attr](), right=node.args[0])
+            if f.attr in ("neg", "negative") and not node.keywords:
+                if isinstance(f.value, ast.Name) and f.value.id == "torch" and len(node.args) == 1 and not isinstance(node.args[0], ast.Starred):
+                    return ast.UnaryOp(op=ast.USub(), operand=node.args[0])
+                if not (isinstance(f.value, ast.Name) and f.value.id in ("torch", "operator", "np", "math")) and not node.args:
+                    return ast.UnaryOp(op=ast.USub(), operand=f.value)
+            if f.attr in ("concat", "concatenate") and isinstance(f.value, ast.Name) and f.value.id == "torch":
+                f.attr = "cat"
+            if f.attr == "type" and len(node.args) == 1 and not node.keywords and not (isinstance(f.value, ast.Name) and f.value.id == "torch"):
+                f.attr = "to"  # x.type(dtype) == x.to(dtype) on the same device
+            if f.attr in ("clamp_min", "clamp_max") and len(node.args) == 1 and not node.keywords and not (isinstance(f.value, ast.Name) and f.value.id == "torch"):
+                return ast.Call(func=ast.Attribute(value=f.value, attr="clamp", ctx=ast.Load()), args=[], keywords=[ast.keyword(arg="min" if f.attr == "clamp_min" else "max", value=node.args[0])])
             if f.attr == "clip":
                 f.attr = "clamp"
             if f.attr == "clamp" and node.args and not any(isinstance(a, ast.Starred) for a in node.args):
